@@ -82,7 +82,7 @@ fn clean_command(path: &str) -> Result<()> {
 
 fn transpile_command(path: &str) -> Result<Box<str>> {
     if !bytecode_dev_transpiler::is_path_a_transpiled_source(path) {
-        bail!("The standard extension for file transpilation sources is `.mmm.transpiled`. Please check your file extensions. (Found {path})")
+        bail!("The standard extension for file transpilation sources is `{}`. Please check your file extensions. (Found {path})", bytecode_dev_transpiler::TRANSPILED_SOURCE_FILE_EXTENSION)
     }
 
     let new_path = Path::new(&path).with_extension("").with_extension("mmm");
